@@ -191,6 +191,9 @@ struct World {
 	std::map<uint32_t, uint64_t> vsent;
 	uint32_t     vserial;
 	volatile int vstop;
+	bool         late_limit;     // RECVMAXSZ is lowered on the listener after the hostile peers have connected
+	volatile int late_connected; // hostile connections open (nothing sent yet)
+	volatile int late_go;        // the limit is in place: play
 	std::vector<int> vtids;
 	std::vector<Foreign> foreign;
 	std::vector<Sess *>  sess;
@@ -2298,6 +2301,10 @@ sess_task(void *a)
 		return;
 	}
 	sim_event("sess %d: connected, script %zu bytes", s->id, s->script.size());
+	if (w->late_limit) {
+		w->late_connected++;
+		(void) sim_wait_flag(&w->late_go, 5 * SEC);
+	}
 	sess_play(s);
 	s->done = 1;
 }
@@ -2974,8 +2981,16 @@ hostile_run(Params *p, int trsel)
 	good_init(&w, &w.late, O_LATE, "late joiner");
 
 	MUST((w.raw ? PI[w.vt].open_raw : PI[w.vt].open)(&w.V));
+	// "the configured NNG_OPT_RECVMAXSZ" may be configured late: on the listener,
+	// once the hostile peers have their connections open but have not said a word
+	w.late_limit     = rm != 0 && !w.vdial && (w.tr == X_TCP || w.tr == X_IPC) && p->draw("latelimit", 0, 2) == 0;
+	w.late_connected = 0;
+	w.late_go        = 0;
+	size_t early_max = w.rcvmax;
+	if (w.late_limit)
+		early_max = w.rcvmax * 16 + 70000;
 	if (rm != 0)
-		MUST(nng_socket_set_size(w.V, NNG_OPT_RECVMAXSZ, w.rcvmax));
+		MUST(nng_socket_set_size(w.V, NNG_OPT_RECVMAXSZ, early_max));
 	else
 		MUST(nng_socket_get_size(w.V, NNG_OPT_RECVMAXSZ, &w.rcvmax));
 	if (w.tr == X_UDP && (w.rcvmax == 0 || w.rcvmax > 65000))
@@ -3041,8 +3056,8 @@ hostile_run(Params *p, int trsel)
 		MUST(nng_listener_start(w.VL, 0));
 		size_t got = 12345;
 		MUST(nng_listener_get_size(w.VL, NNG_OPT_RECVMAXSZ, &got));
-		if (got != w.rcvmax)
-			h_fatal("listener RECVMAXSZ %zu, expected %zu", got, w.rcvmax);
+		if (got != (w.late_limit ? early_max : w.rcvmax))
+			h_fatal("listener RECVMAXSZ %zu, expected %zu", got, w.late_limit ? early_max : w.rcvmax);
 		if (w.has_ctl) {
 			good_open(&w, &w.ctl);
 			good_connect(&w, &w.ctl, true);
@@ -3080,11 +3095,29 @@ hostile_run(Params *p, int trsel)
 		MUST(nng_dialer_create(&w.VD, w.V, url_of(&w, 1).c_str()));
 		MUST(nng_dialer_start(w.VD, NNG_FLAG_NONBLOCK));
 	} else {
-		bool serial = W(0, 2) == 0;
+		bool serial = W(0, 2) == 0 && !w.late_limit;
 		for (Sess *s : w.sess) {
 			s->tid = sim_spawn("hostile", w.tr == X_UDP ? udp_client_task : sess_task, s, 0);
 			if (serial)
 				sim_join(s->tid);
+		}
+		if (w.late_limit) {
+			// all of them are connected (or refused) and silent: now the limit
+			uint64_t until = sim_now_ns() + 3 * SEC;
+			for (;;) {
+				int n = 0;
+				for (Sess *s : w.sess)
+					if (s->done)
+						n++;
+				if (n + w.late_connected >= (int) w.sess.size() || sim_now_ns() > until)
+					break;
+				sim_sleep_ms(1);
+			}
+			MUST(nng_listener_set_size(w.VL, NNG_OPT_RECVMAXSZ, w.rcvmax));
+			sim_event("RECVMAXSZ lowered to %zu on the listener with %d hostile connection(s) open and silent", w.rcvmax,
+			    (int) w.late_connected);
+			sim_probe("c11_limit_set_after_connect");
+			w.late_go = 1;
 		}
 	}
 	// while the attack runs the control connection must keep working
@@ -3167,14 +3200,24 @@ hostile_run(Params *p, int trsel)
 		good_stop(&w.ctl);
 	sim_join_all();
 	{
-		uint64_t s0 = sim_steps(), t0 = sim_now_ns();
-		sim_sleep_ms(10);
-		uint64_t ds = sim_steps() - s0;
+		// What the hostile peers left in the victim's socket buffers is work, not
+		// spinning (50 KB read seven bytes at a time are thousands of reads): the
+		// library has to fall quiet in one of several consecutive windows.
+		uint64_t s0 = 0, t0 = 0, ds = 0;
+		for (int win = 0; win < 6; win++) {
+			s0 = sim_steps();
+			t0 = sim_now_ns();
+			sim_sleep_ms(10);
+			ds = sim_steps() - s0;
+			if (ds <= 20000)
+				break;
+			sim_probe("c11_busy_window_after_attack");
+		}
 		sim_stat("idle_steps", (int64_t) ds);
 		if (ds > 20000)
 			VIOL("spin",
-			    "with all harness tasks stopped and all hostile connections gone the process took %llu "
-			    "scheduling points in %llu us of virtual time (victim %s%s over %s)",
+			    "with all harness tasks stopped and all hostile connections gone the process still took %llu "
+			    "scheduling points in %llu us of virtual time, 50 ms later (victim %s%s over %s)",
 			    (unsigned long long) ds, (unsigned long long) ((sim_now_ns() - t0) / 1000), PI[w.vt].name,
 			    w.raw ? "(raw)" : "", TRN[w.tr]);
 	}
